@@ -513,4 +513,226 @@ theorem Lbl.str_lt_str (a b : α) : (Lbl.str a : Lbl α) < Lbl.str b ↔ a < b :
 
 end LblOrder
 
+/-! ## relabeling by an order-preserving map (C09) -/
+
+section Relabel
+set_option linter.unusedSectionVars false
+variable {γ γ' : Type} [LinearOrder γ] [LinearOrder γ']
+
+/-- re-encode a label array: the old sentinel becomes the new one, every other label goes through `φ`. -/
+def relabel (φ : γ → γ') (m : γ) (m' : γ') (x : γ) : γ' := if x = m then m' else φ x
+
+/-- `φ` preserves and reflects `<` between the members of `L`. -/
+def MonoOn (φ : γ → γ') (L : List γ) : Prop := ∀ a ∈ L, ∀ b ∈ L, (a < b ↔ φ a < φ b)
+
+theorem MonoOn.inj {φ : γ → γ'} {L : List γ} (h : MonoOn φ L) (a b : γ) (ha : a ∈ L) (hb : b ∈ L) :
+    φ a = φ b ↔ a = b := by
+  constructor
+  · intro e
+    rcases lt_trichotomy a b with hlt | heq | hgt
+    · have := (h a ha b hb).mp hlt
+      rw [e] at this; exact absurd this (lt_irrefl _)
+    · exact heq
+    · have := (h b hb a ha).mp hgt
+      rw [e] at this; exact absurd this (lt_irrefl _)
+  · rintro rfl; rfl
+
+theorem MonoOn.mono {φ : γ → γ'} {L L' : List γ} (h : MonoOn φ L) (hsub : ∀ x ∈ L', x ∈ L) : MonoOn φ L' :=
+  fun a ha b hb => h a (hsub a ha) b (hsub b hb)
+
+theorem insertSorted_map (φ : γ → γ') (x : γ) (l : List γ) (h : MonoOn φ (x :: l)) :
+    insertSorted (φ x) (l.map φ) = (insertSorted x l).map φ := by
+  induction l with
+  | nil => simp [insertSorted]
+  | cons y ys ih =>
+    have hxy := h x (List.mem_cons_self ..) y (List.mem_cons_of_mem _ (List.mem_cons_self ..))
+    have hyx := h y (List.mem_cons_of_mem _ (List.mem_cons_self ..)) x (List.mem_cons_self ..)
+    have ih' := ih (h.mono (by
+      intro z hz
+      rcases List.mem_cons.mp hz with rfl | hz
+      · exact List.mem_cons_self ..
+      · exact List.mem_cons_of_mem _ (List.mem_cons_of_mem _ hz)))
+    simp only [List.map_cons, insertSorted]
+    by_cases h1 : x < y
+    · rw [if_pos h1, if_pos (hxy.mp h1)]; simp
+    · rw [if_neg h1, if_neg (fun h' => h1 (hxy.mpr h'))]
+      by_cases h2 : y < x
+      · rw [if_pos h2, if_pos (hyx.mp h2)]; simp [ih']
+      · rw [if_neg h2, if_neg (fun h' => h2 (hyx.mpr h'))]; simp
+
+theorem sortDedup_map (φ : γ → γ') (l : List γ) (h : MonoOn φ l) :
+    sortDedup (l.map φ) = (sortDedup l).map φ := by
+  induction l with
+  | nil => simp [sortDedup]
+  | cons x xs ih =>
+    simp only [List.map_cons, sortDedup]
+    rw [ih (h.mono (fun z hz => List.mem_cons_of_mem _ hz))]
+    apply insertSorted_map
+    apply h.mono
+    intro z hz
+    rcases List.mem_cons.mp hz with rfl | hz
+    · exact List.mem_cons_self ..
+    · exact List.mem_cons_of_mem _ ((mem_sortDedup xs z).mp hz)
+
+theorem indexOf?_map (φ : γ → γ') (x : γ) (l : List γ) (h : ∀ a ∈ l, (φ x = φ a ↔ x = a)) :
+    indexOf? (φ x) (l.map φ) = indexOf? x l := by
+  induction l with
+  | nil => simp [indexOf?]
+  | cons y ys ih =>
+    simp only [List.map_cons, indexOf?]
+    have hy := h y (List.mem_cons_self ..)
+    by_cases e : x = y
+    · rw [if_pos e, if_pos (hy.mpr e)]
+    · rw [if_neg e, if_neg (fun e' => e (hy.mp e')), ih (fun a ha => h a (List.mem_cons_of_mem _ ha))]
+
+theorem relabel_eq_sentinel (φ : γ → γ') (m : γ) (m' : γ') (x : γ) (h : x ≠ m → φ x ≠ m') :
+    relabel φ m m' x = m' ↔ x = m := by
+  unfold relabel
+  by_cases e : x = m
+  · simp [e]
+  · simp [e, h e]
+
+/-- one entry: the code of the relabeled value under the relabeled classes is the old code. -/
+theorem encode1_relabel (φ : γ → γ') (m : γ) (m' : γ') (cls : List γ) (x : γ)
+    (hx : x ≠ m → φ x ≠ m') (hinj : x ≠ m → ∀ a ∈ cls, (φ x = φ a ↔ x = a)) :
+    encode1 (cls.map φ) (fun z => decide (z = m')) (relabel φ m m' x) =
+      encode1 cls (fun z => decide (z = m)) x := by
+  unfold encode1
+  by_cases e : x = m
+  · have : relabel φ m m' x = m' := (relabel_eq_sentinel φ m m' x hx).mpr e
+    rw [this, e]
+    simp
+  · have h1 : ¬ relabel φ m m' x = m' := fun h => e ((relabel_eq_sentinel φ m m' x hx).mp h)
+    have h2 : relabel φ m m' x = φ x := by simp [relabel, e]
+    simp only [h1, e, decide_false, Bool.false_eq_true, if_false]
+    rw [h2, indexOf?_map φ x cls (hinj e)]
+
+theorem transformFlat_relabel (φ : γ → γ') (m : γ) (m' : γ') (cls : List γ) (y : List γ)
+    (hx : ∀ x ∈ y, x ≠ m → φ x ≠ m')
+    (hinj : ∀ x ∈ y, x ≠ m → ∀ a ∈ cls, (φ x = φ a ↔ x = a)) :
+    transformFlat (cls.map φ) (fun z => decide (z = m')) (y.map (relabel φ m m')) =
+      transformFlat cls (fun z => decide (z = m)) y := by
+  induction y with
+  | nil => simp [transformFlat]
+  | cons x xs ih =>
+    simp only [List.map_cons, transformFlat]
+    rw [encode1_relabel φ m m' cls x (hx x (List.mem_cons_self ..)) (hinj x (List.mem_cons_self ..)),
+      ih (fun z hz => hx z (List.mem_cons_of_mem _ hz)) (fun z hz => hinj z (List.mem_cons_of_mem _ hz))]
+
+theorem decode1_relabel (φ : γ → γ') (m : γ) (m' : γ') (cls : List γ) (hm : m ∉ cls) (e : Int) :
+    decode1 (cls.map φ) m' e = (decode1 cls m e).map (relabel φ m m') := by
+  unfold decode1
+  by_cases h1 : e = -1
+  · simp [h1, relabel, Except.map]
+  · rw [if_neg h1, if_neg h1]
+    by_cases h2 : e < 0
+    · simp [h2, Except.map]
+    · rw [if_neg h2, if_neg h2, List.getElem?_map]
+      cases hc : cls[e.toNat]? with
+      | none => simp [Except.map]
+      | some c =>
+        have : c ≠ m := fun h => hm (h ▸ List.mem_of_getElem? hc)
+        simp [Except.map, relabel, this]
+
+theorem decodeFlat_relabel (φ : γ → γ') (m : γ) (m' : γ') (cls : List γ) (hm : m ∉ cls) (es : List Int) :
+    decodeFlat (cls.map φ) m' es = (decodeFlat cls m es).map (List.map (relabel φ m m')) := by
+  induction es with
+  | nil => simp [decodeFlat, Except.map]
+  | cons e es ih =>
+    simp only [decodeFlat]
+    rw [decode1_relabel φ m m' cls hm e, ih]
+    cases decode1 cls m e with
+    | error err => simp [Except.map]
+    | ok c =>
+      cases decodeFlat cls m es with
+      | error err => simp [Except.map]
+      | ok cs => simp [Except.map]
+
+end Relabel
+
+/-! ## argsort and order-preserving maps (cost-matrix permutation) -/
+
+section Argsort
+set_option linter.unusedSectionVars false
+variable {γ γ' : Type} [LinearOrder γ] [LinearOrder γ']
+
+def mapKey (φ : γ → γ') (p : γ × Nat) : γ' × Nat := (φ p.1, p.2)
+
+theorem mem_insertKey (p : γ × Nat) (l : List (γ × Nat)) (q : γ × Nat) :
+    q ∈ insertKey p l ↔ q = p ∨ q ∈ l := by
+  induction l with
+  | nil => simp [insertKey]
+  | cons z zs ih =>
+    simp only [insertKey]
+    split
+    · simp
+    · simp only [List.mem_cons, ih]
+      constructor
+      · rintro (h | h | h)
+        · exact Or.inr (Or.inl h)
+        · exact Or.inl h
+        · exact Or.inr (Or.inr h)
+      · rintro (h | h | h)
+        · exact Or.inr (Or.inl h)
+        · exact Or.inl h
+        · exact Or.inr (Or.inr h)
+
+theorem mem_sortKeys (l : List (γ × Nat)) (q : γ × Nat) : q ∈ sortKeys l ↔ q ∈ l := by
+  induction l with
+  | nil => simp [sortKeys]
+  | cons x xs ih => simp [sortKeys, mem_insertKey, ih]
+
+theorem insertKey_map (φ : γ → γ') (p : γ × Nat) (l : List (γ × Nat))
+    (h : ∀ q ∈ l, (p.1 < q.1 ↔ φ p.1 < φ q.1)) :
+    insertKey (mapKey φ p) (l.map (mapKey φ)) = (insertKey p l).map (mapKey φ) := by
+  induction l with
+  | nil => simp [insertKey]
+  | cons q qs ih =>
+    have hq := h q (List.mem_cons_self ..)
+    simp only [List.map_cons, insertKey, mapKey]
+    by_cases h1 : p.1 < q.1
+    · rw [if_pos h1, if_pos (hq.mp h1)]; simp [mapKey]
+    · rw [if_neg h1, if_neg (fun h' => h1 (hq.mpr h'))]
+      have := ih (fun z hz => h z (List.mem_cons_of_mem _ hz))
+      simp only [mapKey] at this
+      simp [mapKey, this]
+
+theorem sortKeys_map (φ : γ → γ') (l : List (γ × Nat))
+    (h : ∀ p ∈ l, ∀ q ∈ l, (p.1 < q.1 ↔ φ p.1 < φ q.1)) :
+    sortKeys (l.map (mapKey φ)) = (sortKeys l).map (mapKey φ) := by
+  induction l with
+  | nil => simp [sortKeys]
+  | cons x xs ih =>
+    simp only [List.map_cons, sortKeys]
+    rw [ih (fun p hp q hq => h p (List.mem_cons_of_mem _ hp) q (List.mem_cons_of_mem _ hq))]
+    apply insertKey_map
+    intro q hq
+    exact h x (List.mem_cons_self ..) q (List.mem_cons_of_mem _ ((mem_sortKeys xs q).mp hq))
+
+theorem enumFrom'_map (φ : γ → γ') (i : Nat) (l : List γ) :
+    enumFrom' i (l.map φ) = (enumFrom' i l).map (mapKey φ) := by
+  induction l generalizing i with
+  | nil => simp [enumFrom']
+  | cons x xs ih => simp [enumFrom', ih, mapKey]
+
+theorem mem_enumFrom' (i : Nat) (l : List γ) (p : γ × Nat) (h : p ∈ enumFrom' i l) : p.1 ∈ l := by
+  induction l generalizing i with
+  | nil => simp [enumFrom'] at h
+  | cons x xs ih =>
+    simp only [enumFrom', List.mem_cons] at h
+    rcases h with rfl | h
+    · exact List.mem_cons_self ..
+    · exact List.mem_cons_of_mem _ (ih (i+1) h)
+
+/-- `np.argsort` only looks at comparisons: an order-preserving renaming leaves it unchanged. -/
+theorem argsort_map (φ : γ → γ') (l : List γ) (h : MonoOn φ l) : argsort (l.map φ) = argsort l := by
+  unfold argsort
+  rw [enumFrom'_map, sortKeys_map φ _ (fun p hp q hq => h p.1 (mem_enumFrom' 0 l p hp) q.1 (mem_enumFrom' 0 l q hq)),
+    List.map_map]
+  apply List.map_congr_left
+  intro p _
+  rfl
+
+end Argsort
+
 end Ska.Label
